@@ -228,7 +228,9 @@ fn move_full_sync<const N: usize, const M: usize>(case: &Case) -> Vec<i64> {
 
 /// kinds without a lock-step model (judged by the oracles only): their cells are named where the harness can reach them
 fn zc_atomic<const N: usize, const M: usize>(case: &Case) -> Vec<i64> {
+    verif::set_sequence_origin(case.get("origin", 0) as u32);
     let chan = ChannelUniZeroCopyAtomic::<u32, N, M>::new("c");
+    verif::set_sequence_origin(0);
     let mut locs = LocMap::new();
     {
         let (sm, zc) = chan.verif_parts();
@@ -246,7 +248,9 @@ fn zc_atomic<const N: usize, const M: usize>(case: &Case) -> Vec<i64> {
                                              vec![r[0] as i64, r[1] as i64, r[2] as i64, r[3] as i64, f[0] as i64, f[1] as i64] })
 }
 fn zc_full_sync<const N: usize, const M: usize>(case: &Case) -> Vec<i64> {
+    verif::set_sequence_origin(case.get("origin", 0) as u32);
     let chan = ChannelUniZeroCopyFullSync::<u32, N, M>::new("c");
+    verif::set_sequence_origin(0);
     let mut locs = LocMap::new();
     let guard;
     {
